@@ -44,7 +44,7 @@ type Invocation struct {
 type Actor struct {
 	Name    string
 	Dev     *Device
-	Lane    *core.Lane
+	R       *core.SplitMix // per-invocation choices (prefix length, random piece sizes), from one lane draw
 	Mode    int
 	Piece   int
 	UsePeek bool
@@ -68,7 +68,7 @@ func (a *Actor) bufSize(want int) int {
 	case ActPieceFixed:
 		n = 7
 	case ActPieceRandom:
-		n = 1 + a.Lane.Intn(512)
+		n = 1 + a.R.Intn(512)
 	case ActPieceExact:
 		if want > 0 {
 			n = want
@@ -102,9 +102,9 @@ func (a *Actor) Run(r io.Reader, header string, declared int) error {
 		want = 0
 	case ActPrefix:
 		if declared >= 0 {
-			want = a.Lane.Intn(declared + 1)
+			want = a.R.Intn(declared + 1)
 		} else {
-			want = a.Lane.Intn(4096)
+			want = a.R.Intn(4096)
 		}
 	case ActToEOF, ActOver:
 		want = -1
